@@ -94,6 +94,8 @@ func TestCheck(t *testing.T) {
 				scP := res.Scenario(fmt.Sprintf("paging/%s/N=%d,I=%d/%s", fam, b.N, b.NInst, mode))
 				scA := res.Scenario(fmt.Sprintf("around/%s/N=%d,I=%d/%s", fam, b.N, b.NInst, mode))
 				scO := res.Scenario(fmt.Sprintf("around-other-sorts/%s/N=%d,I=%d/%s", fam, b.N, b.NInst, mode))
+				scR := res.Scenario(fmt.Sprintf("reuse/%s/N=%d,I=%d/%s", fam, b.N, b.NInst, mode))
+				scR.Bound = fmt.Sprintf("same %d worlds; %d constraints x sorts {CreatedDesc,LastModifiedDesc}: ONE *Constraint object used for Limit -1, then a token walk per page size 1..%d (each from the top), Limit -1 again, Around with limits {1,2,-1} x every permanode pivot + unknown ref, a final walk; every Handler.Query call of every scenario is bracketed by a deep comparison of the caller's SearchQuery", total, len(konsAll), b.N+1)
 				scP.Bound = fmt.Sprintf("all %d^%d=%d assignments of instants %s to %d permanodes; %d constraints x sorts {CreatedDesc,LastModifiedDesc,Unspecified} x page sizes 1..%d; walk follows tokens until none", b.NInst, b.N, total, instNames(b.NInst), b.N, len(konsAll), b.N+1)
 				scA.Bound = fmt.Sprintf("same %d worlds; %d constraints x sorts {CreatedDesc,LastModifiedDesc} x limits {-1,1..%d} x %d pivots (every live permanode, deleted permanode, claim-less permanode, permanode with deleted claim, public key blob, claim blob, delete claim, unknown ref)", total, len(konsAll), b.N+1, b.N+7)
 				scO.Bound = fmt.Sprintf("same %d worlds without the claim-less permanodes; first %d constraints x sorts {CreatedAsc,BlobRefAsc} x limits {-1,1..%d} x %d pivots", total, otherKons, b.N+1, b.N+7)
@@ -104,7 +106,7 @@ func TestCheck(t *testing.T) {
 					}
 					if stopped || time.Now().After(deadline) {
 						stopped = true
-						for _, sc := range []*vk.Scenario{scP, scA, scO} {
+						for _, sc := range []*vk.Scenario{scP, scA, scO, scR} {
 							sc.Exhaustive = false
 							sc.Note = "deadline reached; only a part of this shard's worlds was explored"
 						}
@@ -112,7 +114,7 @@ func TestCheck(t *testing.T) {
 					}
 					spec := Spec{Family: fam, N: b.N, NInst: b.NInst, Assign: assignOf(idx, b.N, b.NInst), Mode: mode}
 					spec.AssignHR = spec.names()
-					r.world(spec, scP, scA, scO)
+					r.world(spec, scP, scA, scO, scR)
 				}
 			}
 		}
@@ -163,10 +165,16 @@ func (r *runner) report(sc *vk.Scenario, c Case, f *Failure, orderOpen bool) {
 	}
 	r.attempts[f.Sig]++
 	for i := 0; i < 5; i++ {
-		f2, err := runCase(c)
+		fs, err := runCase(c)
 		if err != nil {
 			r.res.EngineError("confirming %s: %v", f.Sig, err)
 			return
+		}
+		var f2 *Failure
+		for _, x := range fs {
+			if f2 == nil || x.Sig == f.Sig {
+				f2 = x
+			}
 		}
 		if f2 == nil || f2.Sig != f.Sig {
 			if orderOpen {
@@ -195,7 +203,7 @@ func aroundLimits(n int) []int {
 }
 
 // world runs every case of one world.
-func (r *runner) world(spec Spec, scP, scA, scO *vk.Scenario) {
+func (r *runner) world(spec Spec, scP, scA, scO, scR *vk.Scenario) {
 	w, err := Build(spec)
 	if err != nil {
 		r.res.EngineError("building %s: %v", spec, err)
@@ -204,6 +212,7 @@ func (r *runner) world(spec Spec, scP, scA, scO *vk.Scenario) {
 	scP.States++
 	scA.States++
 	scO.States++
+	scR.States++
 	sampled := false
 	for _, k := range konsAll {
 		for _, s := range pagingSorts {
@@ -224,6 +233,11 @@ func (r *runner) world(spec Spec, scP, scA, scO *vk.Scenario) {
 				out, f := w.CheckPaging(k, s, limit, full)
 				scP.Executions++
 				scP.Transitions += int64(out.Queries)
+				if m := w.takeMut(); m != nil {
+					mf := m.failure(fmt.Sprintf("constraint %s sort %s limit %d, token walk", k.Name, sn, limit))
+					r.report(scP, Case{Spec: spec, Kind: "paging", Kons: k.Name, Sort: sn, Limit: limit}, mf, false)
+					scP.Outcome("FAIL|" + mf.Sig)
+				}
 				if f != nil {
 					r.report(scP, Case{Spec: spec, Kind: "paging", Kons: k.Name, Sort: sn, Limit: limit}, f, false)
 					scP.Outcome("FAIL|" + f.Sig)
@@ -246,6 +260,11 @@ func (r *runner) world(spec Spec, scP, scA, scO *vk.Scenario) {
 					out, f := w.CheckAround("around", k, s, limit, pv, full)
 					scA.Executions++
 					scA.Transitions++
+					if m := w.takeMut(); m != nil {
+						mf := m.failure(fmt.Sprintf("constraint %s sort %s limit %d around %s", k.Name, sn, limit, pv.Name))
+						r.report(scA, Case{Spec: spec, Kind: "around", Kons: k.Name, Sort: sn, Limit: limit, Pivot: pv.Name}, mf, false)
+						scA.Outcome("FAIL|" + mf.Sig)
+					}
 					if f != nil {
 						r.report(scA, Case{Spec: spec, Kind: "around", Kons: k.Name, Sort: sn, Limit: limit, Pivot: pv.Name}, f, false)
 						scA.Outcome("FAIL|" + f.Sig)
@@ -256,6 +275,31 @@ func (r *runner) world(spec Spec, scP, scA, scO *vk.Scenario) {
 					}
 					scA.Outcome(out.key(limit))
 				}
+			}
+		}
+	}
+	for _, k := range konsAll {
+		for _, s := range pagingSorts[:2] {
+			sn := sortNames[s]
+			w.takeMut()
+			st, f := w.CheckReuse(k, s)
+			scR.Executions++
+			scR.Transitions += int64(st.Queries)
+			c := Case{Spec: spec, Kind: "reuse", Kons: k.Name, Sort: sn}
+			if m := w.takeMut(); m != nil {
+				mf := m.failure(fmt.Sprintf("constraint %s sort %s, reused-constraint sequence", k.Name, sn))
+				r.report(scR, c, mf, false)
+				scR.Outcome("FAIL|" + mf.Sig)
+			}
+			if f != nil {
+				r.report(scR, c, f, false)
+				scR.Outcome("FAIL|" + f.Sig)
+				continue
+			}
+			scR.Nontrivial++
+			scR.Outcome(st.Key)
+			if len(scR.Samples) == 0 {
+				scR.Sample(map[string]any{"world": spec.String(), "constraint": k.Name, "sort": sn, "walks": st.Walks, "arounds": st.Arounds, "queries": st.Queries, "verdict": "one *Constraint reused for everything: every walk == full list, every window contiguous, caller's query never modified"})
 			}
 		}
 	}
@@ -294,7 +338,7 @@ func (r *runner) listKey(w *World, full []blob.Ref, s search.SortType) string {
 // runCase re-executes one case on a freshly built world, through the
 // production constructor search.NewHandler (the mass enumeration uses the bare
 // overlay constructor; see overlay/verif_c09_handler.go.txt).
-func runCase(c Case) (*Failure, error) {
+func runCase(c Case) ([]*Failure, error) {
 	c.Spec.RealHub = true
 	w, err := Build(c.Spec)
 	if err != nil {
@@ -308,6 +352,22 @@ func runCase(c Case) (*Failure, error) {
 	if !ok {
 		return nil, fmt.Errorf("unknown sort %q", c.Sort)
 	}
+	f, err := runCaseOn(w, c, k, s)
+	if err != nil {
+		return nil, err
+	}
+	var fs []*Failure
+	if f != nil {
+		fs = append(fs, f)
+	}
+	// a mutation of the caller's query object during the case is a failure of its own
+	if m := w.takeMut(); m != nil {
+		fs = append(fs, m.failure(fmt.Sprintf("constraint %s sort %s (%s case)", c.Kons, c.Sort, c.Kind)))
+	}
+	return fs, nil
+}
+
+func runCaseOn(w *World, c Case, k Kons, s search.SortType) (*Failure, error) {
 	switch c.Kind {
 	case "paging":
 		full, f := w.Full(k, s)
@@ -315,6 +375,9 @@ func runCase(c Case) (*Failure, error) {
 			return f, nil
 		}
 		_, f = w.CheckPaging(k, s, c.Limit, full)
+		return f, nil
+	case "reuse":
+		_, f := w.CheckReuse(k, s)
 		return f, nil
 	case "around", "around-other":
 		var pv *Pivot
@@ -346,14 +409,14 @@ func (r *runner) replay(rp map[string]any) {
 		r.res.EngineError("replay: %v", err)
 		return
 	}
-	f, err := runCase(c)
+	fs, err := runCase(c)
 	if err != nil {
 		r.res.EngineError("replay: %v", err)
 		return
 	}
 	sc := r.res.Scenario("replay")
 	sc.Executions++
-	if f != nil {
+	for _, f := range fs {
 		r.res.Violate(sc, f.Sig, f.What+" ["+c.Spec.String()+"]", c)
 	}
 }
